@@ -12,6 +12,7 @@ import (
 	"fmt"
 	"sort"
 	"strings"
+	"sync/atomic"
 
 	abci "github.com/cometbft/cometbft/abci/types"
 
@@ -317,4 +318,9 @@ func (t *Transcript) AddResult(msgs []sdk.Msg, r Result) {
 	}
 	sb.WriteString("]")
 	t.Lines = append(t.Lines, sb.String())
+}
+
+// ShadowStats counts what ran on discarded branches (scripts, and transactions by outcome) in this process.
+var ShadowStats struct {
+	Scripts, TxOK, TxRejected, Speculated atomic.Int64
 }
